@@ -31,11 +31,15 @@ SHEAR_KEYS = ["44", "55", "66", "14", "15", "16", "24", "25", "26", "34", "35", 
 
 @st.composite
 def cases(draw):
-    s = draw(duck_specs())
+    s = draw(duck_specs(long_grids=True))
     ntv = s["ntv"]
     kind = draw(st.sampled_from(["longitudinal", "offdiagonal"]))
     ei = draw(st.lists(st.floats(0.05, 0.9), min_size=ntv, max_size=ntv))
     ej = list(ei) if kind == "longitudinal" else draw(st.lists(st.floats(0.05, 0.9), min_size=ntv, max_size=ntv))
+    if kind == "offdiagonal" and draw(st.integers(0, 4)) == 0:
+        # an axis that expands under compression (negative linear compressibility) has a negative strain fraction:
+        # the relation then gives a negative gap for the off-diagonal components that involve it
+        ej = [-x for x in ej]
     return dict(s, kind=kind, ei=ei, ej=ej)
 
 
@@ -59,7 +63,7 @@ def oracle(ctx, full):
         adi = ctx.observe(lambda: np.array(obj.value_adiabatic), _bucket="C02/adi-crash", _case=case)
     gap = adi - iso
     want = T[:, None] * V[None, :] * ref["dPdT"] ** 2 / (9 * (ei * ej)[None, :] * cv)
-    scale = T[:, None] * V[None, :] * ref["dPdT_abs"] ** 2 / (9 * (ei * ej)[None, :] * cv)
+    scale = T[:, None] * V[None, :] * ref["dPdT_abs"] ** 2 / (9 * np.abs(ei * ej)[None, :] * cv)
     # the gap is observed as a difference of two O(|c|) numbers
     tol = 2 * REL * scale + 8 * np.finfo(float).eps * np.maximum(np.abs(adi), np.abs(iso)) + 1e-300
     bad = ~(np.abs(gap - want) <= tol)
@@ -90,7 +94,11 @@ def sub_gap(ctx):
             cl.append("offdiag |ei-ej|>0.05")
         if np.any(T == 0):
             cl.append("T=0 present")
-        ctx.case({k: s[k] for k in ("nq", "na", "ntv", "T", "seed", "kind", "ei", "ej")}, big and (offd or full["kind"] == "longitudinal"), classes=cl)
+        if full["ej"][0] < 0:
+            cl.append("negative-strain-fraction")
+        if len(T) > 64:
+            cl.append("long-T-grid(>64)")
+        ctx.case({k: (s[k] if k != "T" or len(s["T"]) <= 8 else {"n": len(s["T"]), "first": s["T"][0], "last": s["T"][-1]}) for k in ("nq", "na", "ntv", "T", "seed", "kind", "ei", "ej")}, big and (offd or full["kind"] == "longitudinal"), classes=cl)
 
     ctx.run_given(body, cases(), max_examples=ctx.n(2000, 100000))
 
